@@ -62,7 +62,7 @@ USER = {c.__name__: c for c in (UserErr, UserValueErr, UserKeyErr, UserKwOnly, U
                                 UserRewrite, UserBase)}
 
 BASE_ONLY = ('KeyboardInterrupt', 'SystemExit', 'GeneratorExit', 'UserBase')
-GLOM_USER = ('UGlomErr', 'UGlomErrInit', 'UGlomKwOnly', 'UGlomArity', 'UGlomMixed')
+GLOM_USER = ('UGlomErr', 'UGlomErrInit', 'UGlomKwOnly', 'UGlomArity', 'UGlomMixed', 'UGlomRewrite')
 NOT_REBUILDABLE = ('UserKwOnly', 'UserArity', 'UGlomKwOnly', 'UGlomArity')
 
 ALL = tuple(BUILTIN) + tuple(USER) + GLOM_USER
@@ -104,7 +104,12 @@ def bind(G):
     class UGlomMixed(GE, ValueError):
         pass
 
-    d = {c.__name__: c for c in (UGlomErr, UGlomErrInit, UGlomKwOnly, UGlomArity, UGlomMixed)}
+    class UGlomRewrite(GE):
+        def __init__(self, a):
+            super().__init__(a + a)
+
+    d = {c.__name__: c for c in (UGlomErr, UGlomErrInit, UGlomKwOnly, UGlomArity, UGlomMixed,
+                                UGlomRewrite)}
     for c in d.values():
         c.__qualname__ = c.__name__
     if len(_BOUND) > 64:
